@@ -122,6 +122,10 @@ def run_case(case: dict) -> dict:
                 else:
                     var.desc = op["name"]
                 e["after"] = lb(var.read() if use_fn() else var.raw)
+            elif o == "refactor":
+                e["fn"], e["fd"] = op["fn"], op["fd"]
+                fn, fd = op["fn"], op["fd"]
+                var.od.factor = fn if fd == 1 else fn / fd
             elif o == "redesc":
                 e["val"], e["name"] = op["val"], op["name"]
                 var.od.add_value_description(op["val"], op["name"])
@@ -165,5 +169,5 @@ def run_case(case: dict) -> dict:
         ev.append(e)
     for i, e in enumerate(ev):
         e["n"] = i + 1
-    return {"ev": ev, "fn": fn, "fd": fd, "K": K, "descs": [list(x) for x in case["descs"]],
+    return {"ev": ev, "fn": case["fn"], "fd": case["fd"], "K": K, "descs": [list(x) for x in case["descs"]],
             "bitdefs": [[n, list(b)] for n, b in case["bitdefs"]], "w": 8 * enc.NUM_SIZE[t]}
